@@ -43,7 +43,7 @@ def strategy(tier):
     ).map(list)
     return st.fixed_dictionaries({
         # fsb: FileStorage with a blob directory, bfs: the blob wrapper around a FileStorage - both with a blob object
-        'kind': st.sampled_from(['fs', 'fs', 'mapping', 'fsb', 'bfs']),
+        'kind': st.sampled_from(['fs', 'fs', 'mapping', 'fsb', 'bfs', 'bmap']),
         'history': st.lists(op, min_size=2, max_size=n),
         'later': st.lists(op, min_size=1, max_size=3),
         'pack_at': st.integers(0, 3),
@@ -77,6 +77,9 @@ class Hist:
         elif kind == 'bfs':
             from ZODB.blob import BlobStorage
             storage = BlobStorage(os.path.join(d, 'blobs'), FileStorage(os.path.join(d, 'Data.fs')))
+        elif kind == 'bmap':
+            from ZODB.blob import BlobStorage
+            storage = BlobStorage(os.path.join(d, 'blobs'), MappingStorage())
         else:
             storage = FileStorage(os.path.join(d, 'Data.fs')) if kind == 'fs' else MappingStorage()
         self.db = ZODB.DB(storage, historical_pool_size=2, **kw)
@@ -87,7 +90,7 @@ class Hist:
         self.oids = {}
         self.txns.append((self.db.storage.lastTransaction(), {'root': ()}))
         clock.CLOCK.advance(1.0)
-        if kind in ('fsb', 'bfs'):
+        if kind in ('fsb', 'bfs', 'bmap'):
             from ZODB.blob import Blob
             self.conn.root()['B'] = Blob(b'blob-0')
             self.tm.commit()
@@ -165,7 +168,7 @@ class Hist:
             self.record(w)
             return True
         if k == 'setblob':
-            if self.kind not in ('fsb', 'bfs') or 'B' not in cur['root'] or cur.get('B') is ABSENT:
+            if self.kind not in ('fsb', 'bfs', 'bmap') or 'B' not in cur['root'] or cur.get('B') is ABSENT:
                 return False
             data = b'blob-%d-%d' % (op[1], len(self.txns))
             with root['B'].open('w') as f:
